@@ -52,12 +52,13 @@ type setCount struct {
 func CheckC03(m *Model, events []sched.Event, cycle int, st *Stats) []run.Violation {
 	var out []run.Violation
 	type gstate struct {
-		pg      *enginev2alpha2.PodGroup
-		sets    map[string]*setCount
-		mins    map[string]int
-		evActs  map[string]bool   // actions that evicted pods of this group
-		evicted map[string]string // pod key -> node it was evicted from
-		piped   map[string]string // pod key -> node it was nominated to
+		pg         *enginev2alpha2.PodGroup
+		sets       map[string]*setCount
+		mins       map[string]int
+		evActs     map[string]bool   // actions that evicted pods of this group
+		evicted    map[string]string // pod key -> node it was evicted from
+		evictedSet map[string]string // pod key -> its pod set
+		piped      map[string]string // pod key -> node it was nominated to
 	}
 	groups := map[string]*gstate{}
 	get := func(name string) *gstate {
@@ -68,7 +69,7 @@ func CheckC03(m *Model, events []sched.Event, cycle int, st *Stats) []run.Violat
 		if !ok {
 			return nil
 		}
-		g := &gstate{pg: pg, sets: map[string]*setCount{}, mins: PodSets(pg), evActs: map[string]bool{}, evicted: map[string]string{}, piped: map[string]string{}}
+		g := &gstate{pg: pg, sets: map[string]*setCount{}, mins: PodSets(pg), evActs: map[string]bool{}, evicted: map[string]string{}, evictedSet: map[string]string{}, piped: map[string]string{}}
 		for s := range g.mins {
 			g.sets[s] = &setCount{}
 		}
@@ -118,6 +119,7 @@ func CheckC03(m *Model, events []sched.Event, cycle int, st *Stats) []run.Violat
 				sc.evicts++
 				g.evActs[e.EvictAction] = true
 				g.evicted[e.Key()] = e.Node
+				g.evictedSet[e.Key()] = podSetOf(p)
 			}
 		case "pipeline":
 			sc.pipes++
@@ -202,21 +204,22 @@ func CheckC03(m *Model, events []sched.Event, cycle int, st *Stats) []run.Violat
 			case allKept:
 				st.Inc("elastic_shrinks")
 			default:
-				// classify: a pure consolidation move (every evicted pod re-nominated to another node in the same cycle)
 				acts := make([]string, 0, len(g.evActs))
 				for a := range g.evActs {
 					acts = append(acts, a)
 				}
 				sort.Strings(acts)
+				// In the scheduler's own view nominated (pipelined) pods count as members: the running part falls below
+				// the minimum, but together with the pods nominated in the same cycle every pod set still reaches it.
 				moved := true
-				for k, from := range g.evicted {
-					if to, ok := g.piped[k]; !ok || to == from {
+				for _, s := range setNames {
+					if sc := g.sets[s]; sc.before-sc.evicts+sc.pipes < g.mins[s] {
 						moved = false
 					}
 				}
 				sig := "removed"
 				if moved {
-					sig = "moved-elsewhere" // every evicted pod was re-nominated to another node by the same cycle
+					sig = "moved-elsewhere" // the evicted members are replaced by nominations of the same cycle
 				}
 				for _, a := range acts {
 					sig += ":by-" + a
